@@ -100,7 +100,8 @@ func (k *Kit) kind(i uint32, h util.Uint256) string {
 
 // Step is one schedule step (see spec/headerhashes/HeaderHashesSim.tla; heights are REAL heights here).
 type Step struct {
-	Op string `json:"op"` // hdr | blk | flush | stop | crash | reset | look
+	Op string `json:"op"` // hdr | blk | flush | stop | crash | reset | look | retrust
+	T  int    `json:"t"`  // retrust: TrustedHeader.Index configured from now on
 	To int    `json:"to"`
 	H  int    `json:"h"`
 	I  int    `json:"i"`
@@ -108,7 +109,7 @@ type Step struct {
 }
 
 type WorldSpec struct {
-	Kind     string `json:"kind"` // arch | gc | trusted
+	Kind     string `json:"kind"` // arch | gc | trusted | retrust (gc node that gets a TrustedHeader configured later)
 	T        int    `json:"t"`    // TrustedHeader.Index (trusted worlds)
 	GCP      int    `json:"gcp"`
 	Src      string `json:"src"` // tlc | random | hand
@@ -291,6 +292,7 @@ type World struct {
 	disk   Disk // replay of every batch committed so far
 	bc     *core.Blockchain
 	events []map[string]any
+	retr   int  // TrustedHeader.Index configured on the existing database by a retrust step (0 = not yet)
 	kept   Disk // image of a batch prefix inside the last operation (for a crash placed there by the schedule)
 	step   int
 	nprobe int
@@ -305,6 +307,17 @@ func (w *World) hook(c *config.Blockchain) {
 	case "gc":
 		c.Ledger.RemoveUntraceableBlocks = true
 		c.Ledger.GarbageCollectionPeriod = uint32(max(1, w.Spec.GCP))
+	case "retrust":
+		c.Ledger.RemoveUntraceableBlocks = true
+		c.Ledger.GarbageCollectionPeriod = uint32(max(1, w.Spec.GCP))
+		if w.retr > 0 {
+			// as pkg/core's own test does it: the extension that admits a TrustedHeader without changing the
+			// settings recorded in the database version
+			c.NeoFSStateSyncExtensions = true
+			c.NeoFSBlockFetcher.Enabled = true
+			c.NeoFSStateFetcher.Enabled = true
+			c.Ledger.TrustedHeader = config.HashIndex{Hash: w.K.Hashes[w.retr], Index: uint32(w.retr)}
+		}
 	case "trusted":
 		c.Ledger.RemoveUntraceableBlocks = true
 		c.Ledger.GarbageCollectionPeriod = uint32(max(1, w.Spec.GCP))
@@ -372,6 +385,7 @@ func (w *World) probe(j int) {
 	img := w.disk.Clone()
 	ev := map[string]any{"event": "probe", "step": w.step, "batch": w.nbatch, "cont": map[string]any{"n": 0}}
 	bc, errs := w.open(img.Store(), w.Spec.Kind != "trusted")
+	started := w.Spec.Kind != "trusted"
 	ev["ok"], ev["err"] = errs == "", errs
 	if errs != "" {
 		ev["obs"] = Obs{Segs: []Seg{}, Pages: []int{}}
@@ -396,7 +410,7 @@ func (w *World) probe(j int) {
 	if o.Panic == "" && to >= from {
 		e := safely(func() error { return bc.AddHeaders(w.K.headers(from, to)...) })
 		nb := uint32(0)
-		if e == "" && w.Spec.Kind != "trusted" {
+		if e == "" && !w.headerOnly() {
 			for x := bh + 1; x <= min(bh+2, w.K.N()); x++ {
 				if e = safely(func() error { return bc.AddBlock(w.K.block(x)) }); e != "" {
 					break
@@ -412,7 +426,7 @@ func (w *World) probe(j int) {
 	ev["cont"] = cont
 	w.emit(ev)
 	w.Res.Count([]any{w.Spec.Kind, "probe", o.HH, o.BH, o.Mem, len(o.Pages), cont["n"]})
-	if w.Spec.Kind != "trusted" {
+	if started {
 		bc.Close()
 	}
 }
@@ -476,8 +490,11 @@ func (w *World) trusted() int {
 	if w.Spec.Kind == "trusted" {
 		return w.Spec.T
 	}
-	return 0
+	return w.retr
 }
+
+// headerOnly: nodes that wait for a state synchronisation take no blocks through AddBlock here.
+func (w *World) headerOnly() bool { return w.Spec.Kind == "trusted" || w.retr > 0 }
 
 func (w *World) obs(sweep bool) Obs {
 	return observe(w.K, w.bc, w.disk, w.Rnd, sweep, w.trusted(), w.rub())
@@ -501,7 +518,7 @@ func (w *World) Run() error {
 		w.disk.Apply(b)
 	}
 	w.emit(map[string]any{"event": "init", "kind": w.Spec.Kind, "src": w.Spec.Src, "page": page, "trusted": w.trusted(),
-		"rub": w.rub(), "mtb": int(w.K.MTB), "n": int(w.K.N()), "ok": true, "obs": w.obs(false)})
+		"rub": w.rub(), "mtb": int(w.K.MTB), "n": int(w.K.N()), "ok": true, "full": false, "obs": w.obs(false)})
 	alive := true
 	for si, s := range w.Spec.Sched {
 		if !alive {
@@ -524,7 +541,7 @@ func (w *World) Run() error {
 			ev["to"], ev["n"], ev["ok"], ev["err"] = int(to), int(to-from+1), e == "", e
 		case "blk":
 			to := min(uint32(max(0, s.To)), w.K.N())
-			if to <= bh || w.Spec.Kind == "trusted" {
+			if to <= bh || w.headerOnly() {
 				continue
 			}
 			e := ""
@@ -542,6 +559,16 @@ func (w *World) Run() error {
 			w.absorb(nil)
 			w.bc, errs = w.open(w.rec, true)
 			ev["ok"], ev["err"] = errs == "", errs
+			alive = errs == ""
+		case "retrust":
+			if w.Spec.Kind != "retrust" || w.retr > 0 || s.T < page || uint32(s.T) > hh {
+				continue
+			}
+			w.bc.Close()
+			w.absorb(nil)
+			w.retr = s.T
+			w.bc, errs = w.open(w.rec, true)
+			ev["t"], ev["ok"], ev["err"] = s.T, errs == "", errs
 			alive = errs == ""
 		case "crash":
 			img := w.disk
@@ -583,7 +610,7 @@ func (w *World) Run() error {
 		default:
 			continue
 		}
-		if s.Op != "stop" && s.Op != "crash" {
+		if s.Op != "stop" && s.Op != "crash" && s.Op != "retrust" {
 			// probes of the batches this operation wrote come BEFORE its step event
 			w.absorb(w.lookahead(si))
 			ev["interrupted"] = w.kept != nil
